@@ -180,6 +180,60 @@ pub fn c02_map_iter_drained() {
     kani::cover!(steps == 1);
 }
 
+/// What an iterator PROMISES (`size_hint().0`) is what `collect()` / `extend()` pre-allocate: for a head
+/// with ANY declared length (8-byte argument symbolic) followed by two one-byte items, the lower bound
+/// may not exceed the number of items the input can still hold (each item takes at least one byte).
+#[kani::proof]
+pub fn c02_array_iter_size_hint_within_input() {
+    let a: [u8; 8] = kani::any();
+    let buf = [0x9b, a[0], a[1], a[2], a[3], a[4], a[5], a[6], a[7], 0x00, 0x00];
+    let mut d = Decoder::new(&buf);
+    match d.array_iter::<u8>() {
+        Ok(it) => assert!(it.size_hint().0 <= 2, "array_iter promises more items than the input can hold"),
+        Err(_) => assert!(false, "a complete array head was refused"),
+    }
+    let mut d = Decoder::new(&buf);
+    let mut ctx = 0u8;
+    match d.array_iter_with::<u8, u8>(&mut ctx) {
+        Ok(it) => assert!(it.size_hint().0 <= 2, "array_iter_with promises more items than the input can hold"),
+        Err(_) => assert!(false, "a complete array head was refused"),
+    }
+}
+
+#[kani::proof]
+pub fn c02_map_iter_size_hint_within_input() {
+    let a: [u8; 8] = kani::any();
+    let buf = [0xbb, a[0], a[1], a[2], a[3], a[4], a[5], a[6], a[7], 0x00, 0x00];
+    let mut d = Decoder::new(&buf);
+    match d.map_iter::<u8, u8>() {
+        Ok(it) => assert!(it.size_hint().0 <= 1, "map_iter promises more entries than the input can hold"),
+        Err(_) => assert!(false, "a complete map head was refused"),
+    }
+    let mut d = Decoder::new(&buf);
+    let mut ctx = 0u8;
+    match d.map_iter_with::<u8, u8, u8>(&mut ctx) {
+        Ok(it) => assert!(it.size_hint().0 <= 1, "map_iter_with promises more entries than the input can hold"),
+        Err(_) => assert!(false, "a complete map head was refused"),
+    }
+}
+
+#[kani::proof]
+pub fn c02_string_iters_size_hint_within_input() {
+    let a: [u8; 2] = kani::any();
+    let bb = [0x5f, 0x41, a[0], 0x41, a[1], 0xff];
+    let mut d = Decoder::new(&bb);
+    match d.bytes_iter() {
+        Ok(it) => assert!(it.size_hint().0 <= 2),
+        Err(_) => assert!(false),
+    }
+    let sb = [0x7f, 0x61, a[0] & 0x7f, 0x61, a[1] & 0x7f, 0xff];
+    let mut d = Decoder::new(&sb);
+    match d.str_iter() {
+        Ok(it) => assert!(it.size_hint().0 <= 2),
+        Err(_) => assert!(false),
+    }
+}
+
 // ---- drop exactly once -----------------------------------------------------------------
 
 static mut DROPS: u32 = 0;
